@@ -144,6 +144,19 @@ impl CgrComputer {
     }
 }
 
+// wrappers for an external verification harness: there is no public setter
+// for the batch limit and the per-sequence routine is private
+#[cfg(feature = "verif")]
+impl CgrComputer {
+    pub fn verif_set_max_memory(&mut self, memory: usize) {
+        self.memory = memory;
+    }
+
+    pub fn verif_vectorise_one(&self, seq: &[u8]) -> Result<Vec<Point>, String> {
+        self.vectorise_one(seq)
+    }
+}
+
 #[cfg(test)]
 mod tests {
     use super::*;
